@@ -12,5 +12,6 @@ INVARIANT TypeOK
 INVARIANT Symmetric
 INVARIANT ZeroDiagonal
 INVARIANT ClassesSymmetric
+INVARIANT ScaleInvariant
 INVARIANT ShortcutSound
 INVARIANT ShortcutKeepsComputed
